@@ -287,6 +287,13 @@ def norm(t):
     return t
 
 
+def unpack(n):
+    """inverse of the Coq `pack`: (member V, holds (None/bool) as ("Some", b) or None, (in Np, in Nn), (clauses), guard)"""
+    bits = [(n >> k) & 1 == 1 for k in range(9)]
+    holds = ("Some", bits[1]) if bits[2] else None
+    return (bits[0], holds, (bits[3], bits[4]), (bits[5], bits[6], bits[7]), bits[8])
+
+
 def model_lit(t):
     if t == "ONone":
         return ("none",)
@@ -923,7 +930,8 @@ FINDINGS = {
     "multiple_inheritance": "C02-multiple-inheritance",
 }
 COQ_HEADER = ("From Coq Require Import ZArith List Bool NArith. Import ListNotations.\n"
-              "Require Import PV.Narrow.Base PV.Narrow.Model PV.Narrow.Guards.\n")
+              "Require Import PV.Narrow.Base PV.Narrow.Model PV.Narrow.Guards.\n"
+              "Definition pack (bs : list bool) : N := fold_right (fun (b : bool) (acc : N) => (2 * acc + (if b then 1 else 0))%N) 0%N bs.\n")
 
 
 def run(tier: str, replay: str | None = None):
@@ -950,16 +958,17 @@ def run(tier: str, replay: str | None = None):
         cases.append((T(r["input"]["value"]), T(r["input"]["cond"])))
     else:
         cases += load_corpus()
-        grid = [((s,), l) for s in svals for l in leaves]
-        if tier == "quick":
-            grid = rng.sample(grid, 900)
-        cases += grid
-        n_rand = 700 if tier == "quick" else 9000
+        # every (single value, leaf condition) pair in both tiers
+        cases += [((s,), l) for s in svals for l in leaves]
+        n_rand = 1200 if tier == "quick" else 20000
         for _ in range(n_rand):
             cases.append((gen_value(rng, svals), gen_cond(rng, leaves, 2)))
     objs = universe_objects()
     pyobjs = [lit_py(o) for o in objs]
 
+    import time as _time
+
+    _t = {"start": _time.time()}
     # 3. implementation (API + end to end) and oracle facts
     api = []
     boolab = []
@@ -972,6 +981,7 @@ def run(tier: str, replay: str | None = None):
             boolab.append(impl_boolability(v))
         except Exception as ex:
             boolab.append(("CRASH:" + repr(ex), False, False))
+    _t["api"] = _time.time()
     srcs = {}
     for i, (v, c) in enumerate(cases):
         s = case_src(i, v, c)
@@ -983,19 +993,24 @@ def run(tier: str, replay: str | None = None):
         e2e = {}
         rep.violation({"kind": "broken-correspondence", "correspondence": "Model.narrow vs annotate_code (end to end)", "detail": repr(ex)[-1500:]}, no_failing_input=True)
 
+    _t["e2e"] = _time.time()
     # 4. model
     model_ok = proof is not None and not any("build failed" in b for b in proof.broken)
     model = None
     if model_ok:
-        ulist = "Definition UNIV : list obj := " + lib.clist([lit_coq(o) for o in objs]) + ".\n"
+        # the clauses that depend on the object only are evaluated once (UNIV_INFO is a value)
+        ulist = ("Definition UNIV : list obj := " + lib.clist([lit_coq(o) for o in objs]) + ".\n"
+                 "Definition UNIV_INFO := Eval vm_compute in map (fun o => (o, (subclass_bool o, multiple_inheritance o, wf_obj o))) UNIV.\n")
         terms = []
         for v, c in cases:
             terms.append(
                 f"(let V := {value_coq(v)} in let c := {cond_coq(c)} in "
                 "let Np := narrow V c true in let Nn := narrow V c false in "
-                "(Np, Nn, boolab_of V, "
-                "map (fun o => (member o V, holds c o, (member o Np, member o Nn), "
-                "(promotion_negative c o, subclass_bool o, multiple_inheritance o), c02_guard c o)) UNIV))"
+                "(Np, Nn, boolab_of V, map (fun (oi : obj * (bool * bool * bool)) => let '(o, (sb, mi, wf)) := oi in pack "
+                "[member o V; match holds c o with Some b => b | None => false end; "
+                "match holds c o with Some _ => true | None => false end; "
+                "member o Np; member o Nn; promotion_negative c o; sb; mi; "
+                "wf && cond_ok c o && negb mi && negb sb && negb (promotion_negative c o)]) UNIV_INFO))"
             )
         try:
             model = norm(lib.coq_eval(COQ_HEADER + ulist, terms, name="c02", shard=150, jobs=6))
@@ -1003,6 +1018,7 @@ def run(tier: str, replay: str | None = None):
             rep.violation({"kind": "broken-correspondence", "correspondence": "Model.narrow (evaluation failed)", "detail": str(ex)[-1500:]}, no_failing_input=True)
             model = None
 
+    _t["model"] = _time.time()
     # 5. verdicts
     failing = []  # (case idx, route, pol, obj idx, kind)
     corr = []  # (case idx, what, impl, model)
@@ -1023,7 +1039,7 @@ def run(tier: str, replay: str | None = None):
             mt = model[i]
             m = [model_value(mt[0]), model_value(mt[1])]
             mboolab = mt[2]
-            mobj = mt[3]
+            mobj = [unpack(x) for x in mt[3]]
         a0, a1 = api[i]
         if isinstance(a0, frozenset) and isinstance(a1, frozenset):
             key = "both_never" if not a0 and not a1 else "pos_never" if not a0 else "neg_never" if not a1 else "both_nonempty"
@@ -1103,7 +1119,7 @@ def run(tier: str, replay: str | None = None):
     for (i, rname, pol, j, kind) in failing:
         attributed = None
         if model is not None and kind in ("lost", "always_true_wrong"):
-            mo = model[i][3][j]
+            mo = unpack(model[i][3][j])
             clauses = dict(zip(("promotion_negative", "subclass_bool", "multiple_inheritance"), mo[3]))
             if kind == "lost":
                 impl_out = api[i][0 if pol else 1] if rname == "api" else e2e[i][0 if pol else 1]
@@ -1163,7 +1179,7 @@ def run(tier: str, replay: str | None = None):
         rule="case = (value V: union of <=3 members over Any/Literal/class/type[...]/tuple/Annotated-with-len, condition: one of 13 leaf kinds or a depth<=2 not/and/or of them); "
         "both polarities evaluated through constrain_value (api) and, when V and the condition can be written in source, through annotate_code (e2e); "
         "non-trivial = some branch's narrowed value differs from V; every case is also run on %d universe objects under CPython" % len(objs),
-        samples=[{"value": cases[i][0], "cond": cases[i][1], "api": [sorted(map(str, o)) if isinstance(o, frozenset) else o for o in api[i]]} for i in range(0, min(len(cases), 900), 300)],
+        samples=[{"value": cases[i][0], "cond": cases[i][1], "api": [sorted(map(str, o)) if isinstance(o, frozenset) else o for o in api[i]]} for i in range(0, len(cases), max(1, len(cases) // 4))][:5],
         traces_validated_against_impl=n_eval - len(corr),
         input_distribution=hist,
         correspondence_mismatches=len(corr),
@@ -1171,6 +1187,8 @@ def run(tier: str, replay: str | None = None):
         oracle_failures_attributed={k: True for k in known_hits},
         spec_vs_cpython_pairs=len(cases) * len(objs) if model is not None else 0,
         exhaustive=(tier == "thorough" and not replay),
+        stage_seconds={"impl_api": round(_t["api"] - _t["start"], 1), "impl_e2e": round(_t["e2e"] - _t["api"], 1),
+                       "model_vm_compute": round(_t["model"] - _t["e2e"], 1), "oracle_and_verdicts": round(_time.time() - _t["model"], 1)},
     )
     rep.assumptions = ["closed class universe harness/c02_universe.py", "TypeIs/TypeGuard functions return True exactly on members of the guarded type",
                        "translator harness/translate/narrowtable.py", "python-side membership oracle py_member_s (real isinstance/issubclass/len/==)"]
